@@ -5,6 +5,7 @@ import urllib.parse
 import compat  # noqa: F401
 from bodies import AttrTable, Tokens, gen_ical, gen_vcard, INVALID_ICAL, UIDS
 from httpfam import BOOK, CAL, compare_http, execute_http
+import transval
 
 AUDIT = "Audit/C17.lean"
 MODULE = "Xandikos.Theorems.C17Compose"
@@ -214,7 +215,7 @@ def run(chk):
                 "metadata file, collections; duplicates added. Judged three ways: by construction against GET of the "
                 "canonical URL, each href re-asked alone (independence), and by the Lean model + monitor on the same "
                 "lines; both front ends, prefixes /, /dav/, /a/b/")
-    chk.lean_obligations(MODULE, AUDIT)
+    chk.lean_obligations(MODULE, AUDIT, regen=lambda c: transval.regen(c, ["Href"]))
     quick = chk.tier == "quick"
     run_histories(chk, 6 if quick else 80, 30 if quick else 50)
     bare_collection(chk)
